@@ -101,8 +101,10 @@ class PropertyRun:
             for case in cases:
                 if self.pid not in getattr(case, 'properties', (self.pid,)):
                     continue
-                if getattr(case, 'assumed', False):
-                    continue        # assumed contract: usable by callers, never verified, always reported as an assumption
+                if getattr(case, 'assumed', False) or getattr(case, 'justified_by', None):
+                    # assumed contract: usable by callers, never verified, always reported as an assumption;
+                    # justified_by: a view of the function that is the statement of a lemma proved elsewhere in the cone
+                    continue
                 try:
                     res = run_case(case, repo=repo, opts=opts)
                 except Exception as e:  # engine crash: never a violation
@@ -336,7 +338,8 @@ class PropertyRun:
             'callee_contracts_used': sorted(used_contracts),
             'callee_contracts_not_verified_in_this_check': sorted(
                 q for q in used_contracts
-                if q not in self.prop.CONE or all(getattr(cs, 'assumed', False) for cs in REG.cases(q))),
+                if (q not in self.prop.CONE and not any(getattr(cs, 'justified_by', None) in self.prop.CONE for cs in REG.cases(q)))
+                or all(getattr(cs, 'assumed', False) for cs in REG.cases(q))),
             'dropped_statements': sorted(dropped),
             'backends': backends,
             'solver_s': round(solver_s, 2),
@@ -361,8 +364,12 @@ class PropertyRun:
             'wall_s': round(wall, 2),
             'violations': len(self.violations),
         }
-        os.makedirs(os.path.join(VERIF, 'evidence'), exist_ok=True)
-        with open(os.path.join(VERIF, 'evidence', self.pid + '.json'), 'w') as fh:
+        # a run against a scratch copy of the repository (PYVC_REPO, used for seeded changes) must not overwrite the
+        # evidence of the real tree
+        scratch = os.environ.get('PYVC_REPO') and os.path.realpath(os.environ['PYVC_REPO']) != os.path.realpath('/repo')
+        evdir = os.path.join(VERIF, '.work', 'evidence_scratch') if scratch else os.path.join(VERIF, 'evidence')
+        os.makedirs(evdir, exist_ok=True)
+        with open(os.path.join(evdir, self.pid + '.json'), 'w') as fh:
             json.dump(ev, fh, indent=1, default=str)
         for k in self.known:
             print('KNOWN-FINDING: property=%s %s' % (self.pid, k['what']))
